@@ -37,6 +37,8 @@ int main() {
     return main_loop([](const Case &c) {
         if (c.lines.empty() || c.lines[0].size() != 1) { emit({PRE}); return; }
         emit({});
+        size_t fds0 = 0;
+        for (auto &e : fs::directory_iterator("/proc/self/fd")) { (void) e; ++fds0; }
         std::string root = fs::current_path().string() + "/files-" + std::to_string(getpid()) + "-" + std::to_string(counter++);
         fs::remove_all(root);
         fs::create_directories(root);
@@ -56,6 +58,11 @@ int main() {
             case 30:
                 if (l.size() != 2 || fs::exists(pathOf(l[1]))) { ok = false; break; }
                 fs::create_directory(pathOf(l[1])); out.push_back(1); break;
+            case 32: {
+                // a symbolic link to a directory is a directory as far as File::open is concerned
+                if (l.size() != 3 || fs::exists(pathOf(l[1])) || fs::is_symlink(pathOf(l[1])) || !fs::is_directory(pathOf(l[2]))) { ok = false; break; }
+                fs::create_directory_symlink(pathOf(l[2]), pathOf(l[1])); out.push_back(1); break;
+            }
             case 31: {
                 if (l.size() < 2 || f || !bytesOk(l, 2) || fs::is_directory(pathOf(l[1]))) { ok = false; break; }
                 std::ofstream o(pathOf(l[1]), std::ios::binary | std::ios::trunc);
@@ -63,9 +70,39 @@ int main() {
                 out.push_back(1); break;
             }
             case 1: {
-                if (l.size() != 3 || f || l[2] < 1 || l[2] > 6) { ok = false; break; }
+                if (l.size() != 3 || l[2] < 1 || l[2] > 6) { ok = false; break; }
                 std::string p = pathOf(l[1]);
                 bool existed = fs::exists(p), isDir = fs::is_directory(p);
+                if (f) {
+                    // open() on a File that is open: the old stream is closed (its bytes reach the disk) before the new
+                    // one is opened; if the checks fail the exception leaves the old stream open
+                    bool wasWrite = curMode >= 3, known = sequential;
+                    std::string logical = before + written, oldPath = pathOf(curName);
+                    auto mode = static_cast<File::Mode>(l[2]);
+                    try {
+                        f->open(Path(p), mode);
+                        bool opened = f->isOpen();
+                        out.push_back(opened ? 0 : -1);
+                        if (!existed && l[2] <= 2) oracle_fail("C17: opening a missing file for reading did not fail with NotFound");
+                        if (isDir) oracle_fail("C17: opening a directory did not fail with NotFile");
+                        bool same = oldPath == p;
+                        if (wasWrite && known && !(same && (l[2] == 3 || l[2] == 4)) && opened && slurp(oldPath) != logical)
+                            oracle_fail("C17: re-opening a File did not first bring the bytes written through it to the disk");
+                        if (same && wasWrite && (l[2] == 3 || l[2] == 4) && opened && !slurp(p).empty())
+                            oracle_fail("C17: re-opening the same path in a write mode did not leave an empty file");
+                        std::string old = (same && wasWrite) ? (known ? logical : slurp(p)) : (existed && !isDir ? slurp(p) : "");
+                        if (opened) {
+                            curName = l[1]; curMode = (int) l[2]; sequential = !(same && wasWrite && !known); written.clear();
+                            before = (curMode == 5 || curMode == 6) ? old : "";
+                        } else { if (f == dyn) { delete dyn; dyn = nullptr; } f = nullptr; }
+                    } catch (const tulz::Exception &e) {
+                        out.push_back(e.type == Path::NotFound ? -12 : e.type == Path::NotFile ? -10 : -11);
+                        if (e.type == Path::NotFound && (existed || l[2] > 2)) oracle_fail("C17: NotFound for an existing file or a write mode");
+                        if (e.type == Path::NotFile && !isDir) oracle_fail("C17: NotFile for something that is not a directory");
+                        if (!f->isOpen()) oracle_fail("C17: a failed open() closed the stream that was open");
+                    }
+                    break;
+                }
                 std::string old = existed && !isDir ? slurp(p) : "";
                 try {
                     // three ways to get an open File: re-open the long-lived object, or construct a new one from a Path / a string
@@ -150,5 +187,11 @@ int main() {
         delete dyn;
         f = dyn = nullptr;
         fs::remove_all(root);
+        {
+            size_t fdsNow = 0;
+            for (auto &e : fs::directory_iterator("/proc/self/fd")) { (void) e; ++fdsNow; }
+            if (fdsNow > fds0 && !theFile.isOpen())
+                oracle_fail("C17: " + std::to_string(fdsNow - fds0) + " file descriptor(s) are still open although every File was closed or destroyed");
+        }
     }, 60, 32);
 }
